@@ -481,6 +481,17 @@ def any_document(rng):
             return "bom+" + k, "\ufeff" + t
         i = rng.randrange(len(t) + 1)
         return "oddchar+" + k, t[:i] + rng.choice(ODD_CHARS) + t[i:]
+    if rng.random() < 0.12:
+        # syntactically valid, ILL-TYPED: one semantic / declaration fault of tools/splfaults.py (a procedure used as a type, an
+        # undefined type or variable, a call of a non-procedure, redeclarations ...): the handlers' rarely taken lookup branches
+        import splfaults
+        prog, _ = well_typed_program(rng, ndecls=rng.randrange(1, 5))
+        try:
+            x = splfaults.inject(prog, rng)
+        except (IndexError, KeyError, TypeError, ValueError):
+            x = None
+        if x:
+            return "ill-typed", render(flatten(x[0]), rng, newline=rng.choice(["\n", "\n", "\r\n"]))
     r = rng.random()
     if r < 0.35:
         prog, _ = well_typed_program(rng)
